@@ -76,6 +76,11 @@ RULE = ("mv: seeded random writer histories of 4..17 (quick) / 4..27 (thorough) 
         "Round 5: FindMatching / FindMatchingAnyOf / IteratorMatchingAllOf / IteratorMatchingAnyOf on the roles set index with one of 8 "
         "values slices (not ascending, 1-4 values, a duplicate, empty) that all readers of a case share; the answer starts with 1 iff the "
         "caller's slice is unchanged after the call; roles now 0-4 of r0..r4 per entity. "
+        "Round 6: U<t>: QueryIds with one of 10 templates (not contains / not in / not between / icontains / in / contains+between / anyOf+or / "
+        "sort by desc limit none / isEmpty+null / count+skip+limit) in a spelling — per-letter keyword case, 1-3 white-space characters inside "
+        "keyword operators — taken from a process-wide counter, so no spelling is ever presented twice; the parse race scenario parses such fresh "
+        "spellings too; the debugparse scenario interleaves diagnostic parses with a syntax error, plain parses with a LEXER error (`rank = 1 # b`) "
+        "and plain valid parses on 2 Ps with a yield after every parse. "
         "race: 9 scenarios x 6 goroutines under the race detector + 2 mv + 4 cr cases")
 
 MATCHERS = {}   # no open finding (debug-parse-stale-listener was repaired by 956c2a8)
